@@ -7,6 +7,7 @@
 //! writes them as Coq terms for coq/C14/Corr.v.
 use nitrogql_ast::base::{HasPos, Pos};
 use nitrogql_ast::operation::{ExecutableDefinition, OperationType};
+use nitrogql_ast::selection_set::{Selection, SelectionSet};
 use nitrogql_ast::{set_current_file_of_pos, OperationDocument};
 use nitrogql_config_file::{parse_config, Config};
 use nitrogql_parser::{parse_operation_document, parse_type_system_document};
@@ -146,6 +147,33 @@ struct Project {
     sources: Vec<(String, &'static str)>, // (file name under src/, text)
     doc: OperationDocument<'static>,
     doc_l: OperationDocument<'static>,
+    /// fragment names spread in the resolved document, in document / depth-first order
+    spreads: Vec<String>,
+    /// first of them that no definition of the resolved document defines (then the printers cannot run: they expect a
+    /// checked document; the loader's emit_js answers with an error since /repo 539df4b)
+    broken: Option<String>,
+}
+
+fn spreads_of(doc: &OperationDocument) -> (Vec<String>, Option<String>) {
+    fn rec(ss: &SelectionSet, out: &mut Vec<String>) {
+        for sel in ss.selections.iter() {
+            match sel {
+                Selection::Field(f) => { if let Some(s) = f.selection_set.as_ref() { rec(s, out); } }
+                Selection::FragmentSpread(sp) => out.push(sp.fragment_name.name.to_string()),
+                Selection::InlineFragment(i) => rec(&i.selection_set, out),
+            }
+        }
+    }
+    let mut out = vec![];
+    let mut defined = vec![];
+    for d in doc.definitions.iter() {
+        match d {
+            ExecutableDefinition::OperationDefinition(o) => rec(&o.selection_set, &mut out),
+            ExecutableDefinition::FragmentDefinition(f) => { defined.push(f.name.name.to_string()); rec(&f.selection_set, &mut out); }
+        }
+    }
+    let broken = out.iter().find(|n| !defined.contains(n)).cloned();
+    (out, broken)
 }
 
 fn gen_project(rng: &mut Rng, id: usize) -> Project {
@@ -219,6 +247,15 @@ fn gen_project(rng: &mut Rng, id: usize) -> Project {
     }
     let mut main_defs = files[0].defs.clone();
     main_defs.extend(ops);
+    // some import-built projects spread a fragment that ends up defined nowhere (a name that exists nowhere, or a
+    // fragment of an imported file that the import line does not list)
+    if via_resolver && rng.chance(1, 7) {
+        let mut missing = "Missing".to_string();
+        for fi in 1..n_files { for n in &frag_names_by_file[fi] { if !available.contains(n) && rng.chance(1, 2) { missing = n.clone(); } } }
+        if main_defs.is_empty() { main_defs.push(DefSpec::Op { kind: "query", name: Some(pick_name(rng)), spreads: vec![], var: false }); }
+        let k = rng.below(main_defs.len());
+        match &mut main_defs[k] { DefSpec::Op { spreads, .. } | DefSpec::Frag { spreads, .. } => spreads.push(missing) }
+    }
     if main_defs.is_empty() {
         main_defs.push(DefSpec::Op { kind: "query", name: Some(pick_name(rng)), spreads: vec![], var: false });
     }
@@ -272,7 +309,8 @@ fn gen_project(rng: &mut Rng, id: usize) -> Project {
         "document_position_from_file": doc_pos_from,
     });
     let sources = (0..n_files).map(|fi| (if fi == 0 { "main.graphql".to_string() } else { format!("f{}.graphql", fi) }, srcs[fi])).collect();
-    Project { descr, via_resolver, sources, doc, doc_l }
+    let (spreads, broken) = spreads_of(&doc_l);
+    Project { descr, via_resolver, sources, doc, doc_l, spreads, broken }
 }
 
 /// A project given by its sources (first = main file; imports are written in the main source): the corpus.
@@ -291,7 +329,8 @@ fn project_from_sources(id: usize, label: &str, sources: &[(&str, &str)]) -> Pro
         "files": (0..srcs.len()).map(|fi| json!({"path": paths[fi], "file_index": fi + 1, "source": srcs[fi]})).collect::<Vec<_>>(),
     });
     let sources = sources.iter().zip(srcs.iter()).map(|((n, _), t)| (n.to_string(), *t)).collect();
-    Project { descr, via_resolver: true, sources, doc, doc_l }
+    let (spreads, broken) = spreads_of(&doc_l);
+    Project { descr, via_resolver: true, sources, doc, doc_l, spreads, broken }
 }
 
 /// minimised witnesses of past findings (also stored, for readers, in /verif/corpus/C14/*.json); always run first
@@ -661,9 +700,12 @@ fn main() {
     let thorough = args.tier == "thorough";
     let cli: Option<String> = args.extra.iter().position(|a| a == "--cli").and_then(|i| args.extra.get(i + 1)).cloned();
     let mut e2e_budget: usize = if cli.is_none() { 0 } else if thorough { 1500 } else { 250 };
-    let e2e_dir = args.out.join("e2e-scratch");
+    // scratch directories are private to this process (two checks of C14 may run at the same time and share `--out`)
+    let scratch_root = args.out.parent().unwrap_or(Path::new(".")).join(format!("C14-scratch-{}", std::process::id()));
+    let _ = fs::remove_dir_all(&scratch_root);
+    let e2e_dir = scratch_root.join("e2e");
     let node: Option<String> = args.extra.iter().position(|a| a == "--node").and_then(|i| args.extra.get(i + 1)).cloned();
-    let node_dir = args.out.join("node-modules-under-test");
+    let node_dir = scratch_root.join("node-modules-under-test");
     if node.is_some() { let _ = fs::remove_dir_all(&node_dir); fs::create_dir_all(&node_dir).unwrap(); }
     let loader_exe: Option<String> = args.extra.iter().position(|a| a == "--loader").and_then(|i| args.extra.get(i + 1)).cloned();
     let mut loader_budget: usize = if loader_exe.is_none() { 0 } else if thorough { 8000 } else { 2000 };
@@ -679,6 +721,7 @@ fn main() {
     let mut cases: Vec<CaseOut> = vec![];
     let mut infos: Vec<CaseInfo> = vec![];
     let mut projects: Vec<Project> = vec![];
+    let mut cli_refuses: Vec<Option<bool>> = vec![];
     let mut preludes: Vec<String> = vec![];
     let mut distinct: HashSet<String> = HashSet::new();
     let mut direct_failures: Vec<Value> = vec![];
@@ -698,6 +741,26 @@ fn main() {
         if n_imported > 0 { bump("projects_with_imported_fragments", &mut dist); }
         if pr.doc.definitions.iter().any(|d| matches!(d, ExecutableDefinition::OperationDefinition(o) if o.name.is_none())) { bump("projects_with_anonymous_operation", &mut dist); }
 
+        if pr.broken.is_some() {
+            // printers expect a checked document; only the histories use this project. What the CLI does with it is
+            // observed once: it has to refuse (check: fragment not defined), i.e. declare nothing.
+            bump("projects_spreading_an_undefined_fragment", &mut dist);
+            let p = format!("p{}", pid);
+            let mut prelude = String::new();
+            let _ = writeln!(prelude, "Definition {p}_B : list defbody := [].");
+            let _ = writeln!(prelude, "Definition {p}_sp : list str := {}.", coq_list(&pr.spreads, |s| coq_str(s)));
+            let _ = writeln!(prelude, "Definition {p}_doc : doc := {}.", coq_doc(&pr.doc));
+            preludes.push(prelude);
+            let refused = cli.as_ref().map(|c| cli_generate(c, &e2e_dir, &pr, "schema: ./schema/*.graphql\n", "yaml", None).is_none());
+            if refused == Some(false) {
+                direct_failures.push(json!({"what": "nitrogql-cli generate writes a declaration file for a document that spreads an undefined fragment (the loader produces no module for it)",
+                    "classes": [], "project": pr.descr}));
+            }
+            cli_refuses.push(refused);
+            projects.push(pr);
+            continue;
+        }
+        cli_refuses.push(None);
         // reference run (empty configuration) -> bodies
         let ref_cfg = parse_config("schema: x\n").expect("reference config");
         let ref_dts = run_dts(&ref_cfg, &schema, &pr.doc);
@@ -726,6 +789,7 @@ fn main() {
             coq_list(&(0..n).collect::<Vec<_>>(), |k| format!("Body {p}_t{k} {p}_v{k} {p}_s{k} {p}_r{k}")));
         let ids: Vec<String> = (0..n).filter_map(|k| json_id(&bodies.rt[k]).map(|id| format!("({p}_r{k}, {id})"))).collect();
         let _ = writeln!(prelude, "Definition {p}_ids : list (str * rid) := {}.", coq_list(&ids, |s| s.clone()));
+        let _ = writeln!(prelude, "Definition {p}_sp : list str := {}.", coq_list(&pr.spreads, |s| coq_str(s)));
         let _ = writeln!(prelude, "Definition {p}_doc : doc := {}.", coq_doc(&pr.doc));
         let _ = writeln!(prelude, "Definition {p}_docL : doc := {}.", coq_doc(&pr.doc_l));
 
@@ -852,11 +916,13 @@ fn main() {
 
     // ---- histories on ONE loader instance: load_config / emit sequences; each emission is compared with the declaration
     // file printed from the configuration text that is current at that step (default configuration before any load_config)
-    struct PlanStep { load: bool, pid: usize, cur_cfg: CfgT, safe: bool, tdts: (Vec<String>, Vec<String>), js: String, cur_text: Option<String> }
+    struct PlanStep { load: bool, pid: usize, cur_cfg: CfgT, safe: bool, tdts: (Vec<String>, Vec<String>), js: Option<String>, cur_text: Option<String> }
     let mut plans: Vec<Vec<PlanStep>> = vec![];
     let mut hist_reqs: Vec<Value> = vec![];
     if loader_exe.is_some() {
-        let res_projects: Vec<usize> = (0..projects.len()).filter(|i| projects[*i].via_resolver).collect();
+        // projects that spread an undefined fragment take part when the CLI was seen to refuse them (nothing is declared)
+        let res_projects: Vec<usize> = (0..projects.len()).filter(|i| projects[*i].via_resolver
+            && (projects[*i].broken.is_none() || cli_refuses[*i] == Some(true))).collect();
         let safe_infos: Vec<usize> = (0..infos.len()).filter(|i| infos[*i].text_safe).collect();
         let n_hist = if res_projects.is_empty() || infos.is_empty() { 0 } else if thorough { 2500 } else { 300 };
         for k in 0..n_hist {
@@ -874,8 +940,8 @@ fn main() {
                 let pid = if same_project { p0 } else { *rng.pick(&res_projects) };
                 let config = match &cur_text { None => Config::default(), Some(t) => parse_config(t).expect("config parsed before") };
                 let pr = &projects[pid];
-                let tdts = text_exports(&text_dts(&config, &schema, &pr.doc), ": ");
-                let js = text_js(&config, &pr.doc_l);
+                let (tdts, js) = if pr.broken.is_some() { ((vec![], vec![]), None) }
+                    else { (text_exports(&text_dts(&config, &schema, &pr.doc), ": "), Some(text_js(&config, &pr.doc_l))) };
                 let mut files = Map::new();
                 for (name, t) in &pr.sources { files.insert(format!("/p/{}", name), json!(t)); }
                 req_steps.push(json!({"config": if load { json!(cur_text) } else { Value::Null }, "root": "/p/main.graphql", "files": Value::Object(files)}));
@@ -892,8 +958,9 @@ fn main() {
         let mut reqs: Vec<Value> = cases.iter().filter_map(|c| c.loader_req.clone()).collect();
         reqs.extend(hist_reqs.iter().cloned());
         if !reqs.is_empty() {
-            let inp = args.out.join("loader-requests.json");
-            let outp = args.out.join("loader-answers.jsonl");
+            fs::create_dir_all(&scratch_root).unwrap();
+            let inp = scratch_root.join("loader-requests.json");
+            let outp = scratch_root.join("loader-answers.jsonl");
             let _ = fs::remove_file(&outp);
             fs::write(&inp, serde_json::to_string(&reqs).unwrap()).unwrap();
             let st = std::process::Command::new(exe).arg(&inp).arg(&outp).env("RUST_BACKTRACE", "0")
@@ -983,23 +1050,36 @@ fn main() {
         let ans = match emitted.get(&(1_000_000 + k)) { Some(a) if a.len() == steps.len() => a, _ => {
             if loader_exe.is_some() { *dist.entry("loader_histories_unanswered".into()).or_insert(0) += 1; }
             continue; } };
-        if let Some(Err(e)) = ans.iter().find(|r| r.is_err()) {
+        // an emit may fail legitimately: the resolved document spreads an undefined fragment ("no module"); anything else is a failure of the loader
+        let undefined_of = |e: &str| -> Option<String> {
+            let i = e.find("Fragment '")?; let r = &e[i + 10..]; let j = r.find("' is not defined")?; Some(r[..j].to_string()) };
+        if let Some((_, Err(e))) = steps.iter().zip(ans.iter()).find(|(st, r)| match r { Err(e) => projects[st.pid].broken.is_none() || undefined_of(e).is_none(), Ok(_) => false }) {
             direct_failures.push(json!({"what": format!("the loader fails inside a load_config/emit history: {}", e), "classes": [], "history": hist_reqs[k]}));
             continue;
         }
         let mut terms = vec![]; let mut dsteps = vec![]; let mut pids = vec![];
         for (st, a) in steps.iter().zip(ans.iter()) {
-            let js = a.as_ref().unwrap();
-            let te = text_exports(js, " = ");
-            let same = *js == st.js;
-            if !same { *dist.entry("history_steps_where_emit_js_differs_from_current_config".into()).or_insert(0) += 1; }
             let p = format!("p{}", st.pid);
-            terms.push(format!("HStep {} {p}_doc {p}_B {} {} {} {}",
+            let (same, temit, err, te_descr) = match a {
+                Ok(js) => {
+                    let te = text_exports(js, " = ");
+                    let same = st.js.as_ref() == Some(js);
+                    if !same { *dist.entry("history_steps_where_emit_js_differs_from_current_config".into()).or_insert(0) += 1; }
+                    (same, format!("(Some {})", coq_text_exports(&te)), "None".to_string(), json!({"named": te.0, "default": te.1}))
+                }
+                Err(e) => {
+                    *dist.entry("history_steps_where_emit_js_reports_undefined_fragment".into()).or_insert(0) += 1;
+                    let n = undefined_of(e).unwrap_or_default();
+                    (true, "None".to_string(), format!("(Some {})", coq_str(&n)), json!({"error": e}))
+                }
+            };
+            terms.push(format!("HStep {} {p}_doc {p}_B {p}_sp {} {} {} {} {}",
                 if st.load { format!("(Some {})", coq_cfg(&st.cur_cfg)) } else { "None".to_string() },
-                coq_bool(st.safe), coq_bool(same), coq_text_exports(&st.tdts), coq_text_exports(&te)));
+                coq_bool(st.safe), coq_bool(same), coq_text_exports(&st.tdts), temit, err));
             dsteps.push(json!({"load_config_called": st.load, "current_config_text": st.cur_text, "files": projects[st.pid].descr["files"],
                 "declared_by_dts_under_current_config": {"named": st.tdts.0, "default": st.tdts.1},
-                "exported_by_emit_js": {"named": te.0, "default": te.1}, "emit_js_text_equals_printer_under_current_config": same}));
+                "cli_refuses_this_project": cli_refuses[st.pid],
+                "exported_by_emit_js": te_descr, "emit_js_text_equals_printer_under_current_config": same}));
             if !pids.contains(&st.pid) { pids.push(st.pid); }
             *dist.entry("history_steps".into()).or_insert(0) += 1;
             if !st.load { *dist.entry("history_steps_without_load_config".into()).or_insert(0) += 1; }
@@ -1009,6 +1089,8 @@ fn main() {
         cases.push(CaseOut { term: format!("Hist [{}]", terms.join("; ")), descr: json!({"kind": "loader-history", "steps": dsteps}),
             projects: pids, node_file: None, js_text: String::new(), loader_req: None });
     }
+
+    let _ = fs::remove_dir_all(&scratch_root);
 
     // ---- write shards: each shard carries the prelude of the projects it mentions
     let out = &args.out;
